@@ -7,12 +7,13 @@ import (
 
 // clauses of the property (each compares an implementation program with a reference program)
 const (
-	clMount     = "mount-vs-group"                     // P (mounts)                      vs P' (groups)
-	clMountCfg  = "mount-other-subapp-config-vs-group" // P (sub-apps created with the opposite routing config) vs P' (groups)
-	clMountLate = "late-mount-vs-group"                // P (mounted first, filled later) vs P' (groups)
-	clMapOrder  = "map-order"                          // P under a deviating map order   vs P under the default order
-	clFlat      = "group-vs-fullpath"                  // P' (groups)                     vs P'' (full paths)
-	clRoute     = "routechain-vs-fullpath"             // P''' (Route chains)             vs P'' (full paths)
+	clMount        = "mount-vs-group"                        // P (mounts)                      vs P' (groups)
+	clMountCfg     = "mount-other-subapp-config-vs-group"    // P (sub-apps created with the opposite routing config) vs P' (groups)
+	clMountLate    = "late-mount-vs-group"                   // P (mounted first, filled later) vs P' (groups)
+	clMountRebuild = "mount-rebuilt-before-startup-vs-group" // P (mounts, app.RebuildTree() before start-up) vs P' (groups)
+	clMapOrder     = "map-order"                             // P under a deviating map order   vs P under the default order
+	clFlat         = "group-vs-fullpath"                     // P' (groups)                     vs P'' (full paths)
+	clRoute        = "routechain-vs-fullpath"                // P''' (Route chains)             vs P'' (full paths)
 	// two-phase programs: the items after "||" are registered after start-up and the first requests,
 	// then app.RebuildTree(); P (mounts) vs P' (groups) built with the same step sequence
 	clPhased = "late-registration-mount-vs-group"
